@@ -1904,6 +1904,20 @@ impl Instance {
             let (d, h) = Self::diff(&exp, &fwd);
             return Err(self.scan_mismatch(sel, "forward", d, &h));
         }
+        // C02 stability for scans, independent of the model: the full scan of a held snapshot equals the view recorded
+        // when the snapshot was opened
+        if let SnapSel::Live(slot, _) = sel {
+            if let (Some(Some(view)), true) = (self.snap_views.get(slot), unknown.is_empty()) {
+                let first: Vec<(Key, Vec<u8>)> = view.iter().filter_map(|(k, v)| v.as_ref().map(|v| (k.clone(), v.clone()))).collect();
+                let keys_known: BTreeSet<&Key> = view.keys().collect();
+                let now: Vec<(Key, Vec<u8>)> = fwd.iter().filter(|(k, _)| keys_known.contains(k)).cloned().collect();
+                bump(&mut self.counters, "snapshot_stability_comparisons", 1);
+                if first != now {
+                    let (d, h) = Self::diff(&first, &now);
+                    return Err(self.scan_mismatch(sel, "snapshot-view-changed", format!("the scan differs from what this snapshot answered when it was opened: {d}"), &h));
+                }
+            }
+        }
         let mut rev = strip(self.collect(t.iter(s, None).rev()).map_err(|e| self.scan_mismatch(sel, "iter-error", e, b""))?);
         rev.reverse();
         bump(&mut self.counters, "scan_comparisons", 1);
